@@ -17,10 +17,13 @@ import subprocess
 import sys
 import time
 import traceback
+import zlib
 
 VERIF = os.path.dirname(os.path.dirname(os.path.abspath(__file__)))
 REPO_SRC = os.environ.get("SMOOTHMATH_SRC", "/repo/src")
 REPLAY_PY = os.environ.get("REPLAY_PYTHON", "/venv/bin/python")
+EVIDENCE_DIR = os.environ.get("VERIF_EVIDENCE_DIR") or os.path.join(VERIF, "evidence")     # redirected only by the seeded-change matrix
+REPLAY_DIR = os.environ.get("VERIF_REPLAY_DIR") or os.path.join(VERIF, "replays")
 EXIT_HARNESS = 3
 
 
@@ -253,6 +256,20 @@ def run_job(args):
                     continue
                 r = eng.check(vc.query)
                 rec = None
+                if r in ("sat", "unsat") and opts.get("cvc5_sample") and not vc.info.get("concrete_only") and not z3.is_true(vc.query) \
+                        and zlib.crc32(f"{spec.get('id')}|{vc.name}|{len(recs)}".encode()) % opts["cvc5_sample"] == 0:
+                    from symreal import crosscheck
+                    r2, dt = crosscheck.cvc5_decide(eng.last, opts.get("cvc5_timeout_ms", 5000))
+                    cx = res.setdefault("cvc5", {"checked": 0, "agree": 0, "unknown": 0, "disagree": 0, "time_s": 0.0, "examples": []})
+                    cx["checked"] += 1
+                    cx["time_s"] += dt
+                    if r2 == r:
+                        cx["agree"] += 1
+                    elif r2 in ("sat", "unsat"):
+                        cx["disagree"] += 1
+                        cx["examples"].append({"vc": vc.name, "z3": r, "cvc5": r2})
+                    else:
+                        cx["unknown"] += 1
                 if r == "sat" and vc.info.get("concrete_only"):
                     # a supplementary obligation that only the un-instrumented interpreter can decide (e.g. real set/dict
                     # membership): run it once at a model of the path condition; counted under decided_without_final_query
@@ -355,13 +372,13 @@ def load_known():
 
 
 def write_replay(prop, job, v):
-    os.makedirs(os.path.join(VERIF, "replays"), exist_ok=True)
+    os.makedirs(REPLAY_DIR, exist_ok=True)
     body = {"property": prop, "spec": job["spec"], "vc": v["vc"], "inputs": v.get("inputs"),
             "inputs_rational": v.get("inputs_rational"), "observed": v.get("observed"), "why": v.get("why"),
             "info": v.get("info"),
             "how_to_replay": f"cd /verif && ./check {prop} --replay <this file>"}
     h = hashlib.sha1(json.dumps([body["spec"], body["vc"], body["inputs"]], sort_keys=True, default=str).encode()).hexdigest()[:12]
-    path = os.path.join(VERIF, "replays", f"{prop}-{h}.json")
+    path = os.path.join(REPLAY_DIR, f"{prop}-{h}.json")
     json.dump(body, open(path, "w"), indent=1, default=str)
     return path
 
@@ -373,8 +390,16 @@ def main(prop_name, tier, seed, budget_s=None, procs=None, only=None):
     prop = importlib.import_module("props." + prop_name.lower())
     PROP = prop.PROP
     import glob
-    for f in glob.glob(os.path.join(VERIF, "replays", f"{PROP}-*.json")):
+    for f in glob.glob(os.path.join(REPLAY_DIR, f"{PROP}-*.json")):
         os.remove(f)
+    # encoding validated against the implementation: the repository's own tests under the engine in ground mode (in parallel)
+    gt = None
+    if not os.environ.get("VERIF_SKIP_GROUND_TESTS"):
+        env = dict(os.environ)
+        env["SMOOTHMATH_SRC"] = REPO_SRC
+        env["SMOOTHMATH_REPO"] = os.path.dirname(REPO_SRC.rstrip("/"))
+        gt = subprocess.Popen([sys.executable, os.path.join(VERIF, "selftest", "ground_tests.py")], stdout=subprocess.PIPE, stderr=subprocess.STDOUT,
+                              text=True, env=env)
     jobs = prop.jobs(tier, seed)
     if only:
         jobs = [j for j in jobs if only in j.get("id", "")]
@@ -382,6 +407,7 @@ def main(prop_name, tier, seed, budget_s=None, procs=None, only=None):
     opts.setdefault("timeout_ms", 10000 if tier == "quick" else 30000)
     opts.setdefault("max_paths", 2000)
     opts.setdefault("job_budget_s", 40 if tier == "quick" else 300)
+    opts.setdefault("cvc5_sample", 20)        # every 20th final verification condition is re-decided by cvc5
     budget_s = budget_s or opts.get("budget_s") or (240 if tier == "quick" else 1500)
     procs = procs or int(os.environ.get("VERIF_PROCS", "16"))
     hard_s = opts.get("job_hard_s") or (opts["job_budget_s"] * 2 + 30)
@@ -392,6 +418,18 @@ def main(prop_name, tier, seed, budget_s=None, procs=None, only=None):
                 results.append(r)
     else:
         results, skipped = run_pool(prop_name, jobs, opts, procs, hard_s, t0 + budget_s)
+    ground = {"ran": False}
+    if gt is not None:
+        try:
+            out, _ = gt.communicate(timeout=300)
+            import re as _re
+            m = _re.search(r"GROUND-TESTS passed=(\d+) forks_decided_by_solver=(\d+)", out or "")
+            ground = {"ran": True, "exit": gt.returncode, "passed": int(m.group(1)) if m else 0,
+                      "solver_decided_forks": int(m.group(2)) if m else 0, "tail": (out or "")[-300:] if gt.returncode else ""}
+        except Exception as e:  # noqa
+            gt.kill()
+            ground = {"ran": True, "exit": -1, "passed": 0, "tail": str(e)}
+    opts["_ground"] = ground
     return finish(prop, PROP, tier, seed, jobs, results, skipped, t0, opts)
 
 
@@ -522,6 +560,7 @@ def finish(prop, PROP, tier, seed, jobs, results, skipped, t0, opts):
     vc_names = {}
     known_hit = {}
     n_viol = 0
+    cvc = {"checked": 0, "agree": 0, "unknown": 0, "disagree": 0, "time_s": 0.0, "examples": []}
     for r in results:
         spec = r["spec"]
         if spec.get("twin"):
@@ -535,6 +574,11 @@ def finish(prop, PROP, tier, seed, jobs, results, skipped, t0, opts):
         funcs.update(r["funcs"])
         truncated += bool(r["truncated"])
         killed += bool(r.get("killed"))
+        for k2, v2 in (r.get("cvc5") or {}).items():
+            if k2 == "examples":
+                cvc["examples"] += v2[:2]
+            else:
+                cvc[k2] += v2
         for k, v in r["vc_names"].items():
             vc_names[k] = vc_names.get(k, 0) + v
         if r["paths"] >= 2 or r["queries"] > 0:
@@ -571,6 +615,8 @@ def finish(prop, PROP, tier, seed, jobs, results, skipped, t0, opts):
         harness_error = f"{len(errors)} job(s) crashed: " + errors[0]["error"][:800]
     elif twins_run and twins_refuted < twins_run:
         harness_error = f"vacuity guard: {twins_run - twins_refuted} reachability twin(s) were NOT refuted"
+    elif cvc["disagree"]:
+        harness_error = f"solver disagreement: z3 and cvc5 decided {cvc['disagree']} sampled verification condition(s) differently: {cvc['examples'][:2]}"
     elif not results:
         harness_error = "no job was run"
     elif tot["paths"] == 0:
@@ -603,7 +649,12 @@ def finish(prop, PROP, tier, seed, jobs, results, skipped, t0, opts):
             "obligation_kinds": vc_names,
             "functions_encoded": sorted(funcs),
             "bounds": getattr(prop, "BOUNDS", {}).get(tier, getattr(prop, "BOUNDS", {})),
+            "cvc5_crosschecked": cvc["checked"], "cvc5_agree": cvc["agree"], "cvc5_inconclusive": cvc["unknown"], "cvc5_disagree": cvc["disagree"],
+            "cvc5_time_s": round(cvc["time_s"], 1), "cvc5_disagreements": cvc["examples"][:5],
             "twins_run": twins_run, "twins_refuted": twins_refuted,
+            "traces_validated_against_impl": (opts.get("_ground") or {}).get("passed", 0),
+            "encoding_validation": {"what": "the repository's own test-suite executed under the engine in ground mode (all constants exact rational proxies, "
+                                            "elementary functions as axiomatised terms, comparisons decided by z3); must pass", **(opts.get("_ground") or {})},
             "known_findings_hit": known_hit,
             "axiom_schemas": _schemas(),
             "harness_error": harness_error,
@@ -611,8 +662,8 @@ def finish(prop, PROP, tier, seed, jobs, results, skipped, t0, opts):
         "assumptions": getattr(prop, "ASSUMPTIONS", []) + COMMON_ASSUMPTIONS,
         "wall_s": wall, "violations": n_viol,
     }
-    os.makedirs(os.path.join(VERIF, "evidence"), exist_ok=True)
-    json.dump(ev, open(os.path.join(VERIF, "evidence", f"{PROP}.json"), "w"), indent=1, default=str)
+    os.makedirs(EVIDENCE_DIR, exist_ok=True)
+    json.dump(ev, open(os.path.join(EVIDENCE_DIR, f"{PROP}.json"), "w"), indent=1, default=str)
     print(f"[{PROP} {tier}] jobs={len(results)}/{len(jobs)} paths={tot['paths']} VCs={tot['vcs']} unsat={tot['unsat']} "
           f"unknown={tot['unknown']} unreproduced={tot['sat_unreproduced']} unsupported={tot['unsupported']} "
           f"violations={n_viol} known={sum(known_hit.values())} twins={twins_refuted}/{twins_run} "
@@ -622,6 +673,9 @@ def finish(prop, PROP, tier, seed, jobs, results, skipped, t0, opts):
             print(f"  inconclusive (unreproduced model): job={r['job']} {json.dumps(r['unreproduced_samples'][0], default=str)[:300]}")
     for ln in known_lines:
         print(ln)
+    g = opts.get("_ground") or {}
+    if g.get("ran") and g.get("exit") != 0:
+        print(f"  note: encoding validation (repo tests under the engine, ground mode) did not pass cleanly: exit={g.get('exit')} passed={g.get('passed')}")
     if harness_error:
         print("HARNESS-ERROR: " + harness_error)
         return EXIT_HARNESS
